@@ -34,6 +34,7 @@ EXPLANATION = (
     "counts, correlation estimates and the normalised n(z). This decides the weight-scale clause of C13 as a necessary "
     "and, for exact arithmetic, sufficient structural condition; rotations, row order, patch relabelling and additivity "
     "relate two numerical runs and are NOT decided."
+    ' R5: angles computed from 3-vectors (from_3d) are of degree zero in the vector — mean() hands it un-normalised averages.'
 )
 ASSUMPTIONS = [
     "scipy KDTree.count_neighbors(weights=(w1, w2)) sums the products w1[i] * w2[j] over the counted pairs (bilinear)",
